@@ -24,6 +24,7 @@ def run(ctx):
     d_priority_zero(ctx)
     c_identity_by_instance(ctx)
     c_instance_registered(ctx)
+    e_live_retry(ctx)
     c_abort_spares_winner(ctx)
     d_score_chain(ctx)
     t = ctx.tree.ast(SM)
@@ -855,6 +856,38 @@ def _derives_from_is_equal(test, fn):
         if ok:
             return True
     return False
+
+
+def e_live_retry(ctx):
+    """When the best head cannot create its event its flow is aborted - and _abort_flow also aborts that flow's children, whose heads can be candidates of the same group.
+    Before the choice is repeated, the candidates are filtered for liveness again: otherwise a head of a flow that has just been aborted can win, its action is started
+    although its flow has failed, and the live competitors are aborted as losers."""
+    t = ctx.tree.ast(SM)
+    fn = find_function(t, "_resolve_action_conflicts")
+    whiles = [w for w in ast.walk(fn) if isinstance(w, ast.While) and any(isinstance(c, ast.Call) and src(c.func) in ("random.choice", "choice") for c in ast.walk(w))]
+    if not whiles:
+        ctx.note("C05.e.live-retry: the winner is chosen once (no retry loop); nothing to decide")
+        return
+    w = whiles[0]
+    cfg = CFG(fn)
+    picks = [cfg.node_of(a) for a in ast.walk(w) if isinstance(a, ast.Assign) and isinstance(a.value, ast.Call) and src(a.value.func) in ("random.choice", "choice")]
+    emit_tests = [n for n in cfg.nodes if n.kind == "test" and isinstance(n.ast, ast.expr) and any(
+        isinstance(c, ast.Call) and isinstance(c.func, ast.Name) and c.func.id.startswith("_try_") for c in ast.walk(n.ast)) and any(n.ast is x for x in ast.walk(w))]
+    live = [n for n in cfg.nodes if n.kind == "stmt" and isinstance(n.ast, ast.Assign) and any(
+        isinstance(c, ast.Call) and src(c.func) in ("is_active_flow", "is_listening_flow") for c in ast.walk(n.ast.value))
+        and any(isinstance(c, ast.Compare) and "status" in src(c) and "ACTIVE" in src(c) for c in ast.walk(n.ast.value)) and any(n.ast is x for x in ast.walk(w))]
+    ctx.floor("C05.e.live-retry", SM, "attempts to create the winner's event inside the retry loop", len(emit_tests), 1)
+    ok = True
+    for et in emit_tests:
+        for m, lab in et.succ:
+            if lab is False:
+                for pk in picks:
+                    if pk in cfg.reachable([m]) and not cfg.must_pass(m, pk, live, include_a=True):
+                        ok = False
+    ctx.check("C05.e.live-retry", SM, fn.name, "candidates are filtered for liveness before the choice is repeated", ok,
+              "after a failed attempt the remaining candidates are narrowed to heads of active flows with ACTIVE status before the next pick" if ok else
+              "after the winner failed to create its event the choice is repeated over candidates that were not filtered for liveness: the failed flow's abort also aborted its child "
+              "flows, and a head of such a dead flow can be picked - its action is started although its flow has failed and the live competitors are aborted", line=w.lineno)
 
 
 def c_identity_by_instance(ctx):
